@@ -71,4 +71,5 @@ def build():
                    raises=[("InvalidFieldAnnotations", f"cget({tab}, cls) is None and pnf_rejects(cls)")], exc_ensures=UNCH,
                    ensures=INV + [f"result == {val}", f"implies(cget(old({tab}), cls) is not None, " + " and ".join(UNCH) + ")"],
                    note="the classification of this very class, computed at first use and returned from the cache afterwards; a cached class never touches the tables"))
+    world.trusted_notes.append('process_node_fields(cls, ASTNode) is a deterministic function of the class (pnf_children / pnf_props / pnf_rejects); {**a, **b} is merged_tables(a, b)')
     return world, lib, reg, []
